@@ -17,12 +17,11 @@ Qed.
 (* 1: nine inserts of one 900-byte key *)
 Definition w_lookup : list op := map (fun i => OInsert (k900 [97]) (N.of_nat i)) (seq 1 9).
 Lemma refuted_lookup :
-  exists ops k, has_gap ops = false /\
+  exists ops k,
     lookup (fst (run ops)) k = inl (Some 4) /\ s_lookup k (fst (s_run ops)) = Some 9 /\
     (exists l, scan_from (fst (run ops)) k = inl l /\ length l = 5%nat /\ length (s_from k (fst (s_run ops))) = 9%nat).
 Proof.
   exists w_lookup, (k900 [97]).
-  split; [vm_compute; reflexivity|].
   split; [vm_compute; reflexivity|].
   split; [vm_compute; reflexivity|].
   destruct (scan_from (fst (run w_lookup)) (k900 [97])) as [l|e] eqn:E.
@@ -40,23 +39,11 @@ Qed.
 Definition kk (i : nat) : key := k900 [0; N.of_nat i].
 Definition w_scan : list op :=
   map (fun i => OInsert (kk i) (N.of_nat i)) (seq 0 30) ++ map (fun i => ODelete (kk i) (N.of_nat i)) (seq 4 4).
-Lemma refuted_scan :
-  exists ops l, has_dup ops = false /\ has_failed_op ops = false /\
-    scan_all (fst (run ops)) = inl l /\ length l = 4%nat /\ length (fst (s_run ops)) = 26%nat.
-Proof.
-  destruct (scan_all (fst (run w_scan))) as [l|e] eqn:E.
-  - exists w_scan, l.
-    split; [vm_compute; reflexivity|].
-    split; [vm_compute; reflexivity|].
-    split; [exact E|].
-    assert (H : match scan_all (fst (run w_scan)) with inl l => length l | inr _ => O end = 4%nat)
-      by (vm_compute; reflexivity).
-    rewrite E in H. split; [exact H|]. vm_compute; reflexivity.
-  - exfalso.
-    assert (H : match scan_all (fst (run w_scan)) with inl _ => true | inr _ => false end = true)
-      by (vm_compute; reflexivity).
-    rewrite E in H. discriminate H.
-Qed.
+(* regression (fixed in /repo ff9d0a3: BTreeCursor::advance skips empty leaves): the full scan passes
+   the emptied second leaf and returns all 26 stored entries, as the multimap does *)
+Lemma fixed_scan_emptyleaf :
+  has_dup w_scan = false /\ scan_all (fst (run w_scan)) = inl (fst (s_run w_scan)) /\ length (fst (s_run w_scan)) = 26%nat.
+Proof. vm_compute. repeat split; reflexivity. Qed.
 
 (* 3: eight 2-byte keys, eight 900-byte keys, a ninth 900-byte key *)
 Definition w_insert : list op :=
@@ -65,12 +52,11 @@ Definition w_insert : list op :=
 Definition is_small_insert (o : op) : bool :=
   match o with OInsert k _ => Nat.leb (length k) 900 | _ => false end.
 Lemma refuted_insert :
-  exists ops, has_dup ops = false /\ has_gap ops = false /\
+  exists ops, has_dup ops = false /\
     (forall o, In o ops -> exists k v, o = OInsert k v /\ (length k <= 900)%nat) /\
     last (snd (run ops)) RUnit = RPanic.
 Proof.
   exists w_insert.
-  split; [vm_compute; reflexivity|].
   split; [vm_compute; reflexivity|].
   split.
   - assert (H : forallb is_small_insert w_insert = true) by (vm_compute; reflexivity).
